@@ -161,11 +161,11 @@ func execWindow(c Case) [][][]string {
 	w.SetCallback(func(rows []types.Row) {
 		cp := append([]types.Row(nil), rows...)
 		cur = append(cur, emissionLine(kind, cp, inAdd))
+		if inCallback {
+			return // a late update caused by an Add in the gap: not a gap of its own
+		}
 		k := emitted
 		emitted++
-		if inCallback {
-			return
-		}
 		inCallback = true
 		for _, g := range gaps {
 			if g.k == k {
@@ -190,7 +190,11 @@ func execWindow(c Case) [][][]string {
 		if !ok {
 			return false
 		}
+		from := len(cur)
 		window.VerifTrigger(w, t)
+		if kind == "session" {
+			canonSessionPass(cur[from:])
+		}
 		return true
 	}
 	var out [][][]string
@@ -233,11 +237,30 @@ func execWindow(c Case) [][][]string {
 			cur = append(cur, []string{"bad-op"})
 		}
 		drainOut()
-		if kind == "session" {
-			// one expiry pass collects sessions in Go map order: canonicalise by key, then start
-			sort.SliceStable(cur, func(i, j int) bool { return strings.Join(cur[i][:2], " ") < strings.Join(cur[j][:2], " ") })
-		}
 		out = append(out, cur)
 	}
 	return out
+}
+
+// canonSessionPass: one expiry pass collects sessions in Go map order. Canonicalise the pass's
+// lines in place — first firings sorted by key then start, late updates (from Adds in the
+// unlock gap) after them in their order.
+func canonSessionPass(seg [][]string) {
+	var firsts, lates [][]string
+	for _, l := range seg {
+		if l[0] == "emit" {
+			firsts = append(firsts, l)
+		} else {
+			lates = append(lates, l)
+		}
+	}
+	sort.SliceStable(firsts, func(i, j int) bool {
+		if firsts[i][1] != firsts[j][1] {
+			return unhx(firsts[i][1]) < unhx(firsts[j][1])
+		}
+		a, _ := strconv.ParseInt(firsts[i][2], 10, 64)
+		b, _ := strconv.ParseInt(firsts[j][2], 10, 64)
+		return a < b
+	})
+	copy(seg, append(firsts, lates...))
 }
